@@ -1828,5 +1828,16 @@ def distribution(descs, results):
             feats["grace_docs"] += 1 if any(e["t"] == "g" for e in evs) else 0
             feats["dots2_docs"] += 1 if any(e.get("d", 0) >= 2 for e in evs) else 0
             feats["breve_docs"] += 1 if any(e["v"] <= 0 for e in evs) else 0
+            two = any(len(st["voices"]) == 2 for st in a["staves"])
+            if d["k"] == "kern":
+                feats["kern_subspine_docs"] += 1 if (d["lay"]["split"] and two) else 0
+                feats["kern_midmeasure_split_docs"] += 1 if (d["lay"]["split"] and any(e["t"] == "s" for e in evs)) else 0
+                feats["kern_one_part_docs"] += 1 if d["lay"]["same_part"] else 0
+                feats["kern_via_load_score"] += 1 if d.get("via", "load_kern") != "load_kern" else 0
+            if d["k"] == "mei":
+                feats["mei_ppq_inferred"] += 1 if not (d["opt"].get("ppq")) else 0
+                feats["mei_dur_ppq_only"] += 1 if (d["opt"].get("ppq") and d["opt"].get("declare") == "durppq") else 0
+                feats["mei_sig_" + d["opt"]["sig_loc"]] += 1
+                feats["mei_short_layer"] += 1 if d["opt"].get("short") else 0
     errs = sum(1 for r in results for x in r["impl"] if x == "err")
     return {"by_kind": dict(c), "features": dict(feats), "error_observations": errs}
